@@ -164,6 +164,29 @@ def generate(ctx):
             run.oblige("steps-eq-common-length", sym.num(n) == spec_steps(me, p), kind="post", replay=rp)
         ctx.explore("config_parser.MetConfig.n_timesteps[%s]" % cfg, t_nsteps, PROPS | {"C14"})
 
+        # ---------------- history: the count follows the CURRENT fields of the instance
+        def t_hist(run, p=p, cfg=cfg, rp=rp):
+            if not any(p[f] == "list" for f in FIELDS):
+                return
+            me = make_met(run, ns, p)
+            rej = spec_rejected(me, p)
+            if rej.concrete and rej.t:
+                return
+            run.assume(Not(rej))
+            run.scope = "config_parser.MetConfig.n_timesteps[%s|after-reassignment]" % cfg
+            n1 = me.n_timesteps
+            n2 = sym.fresh_int("new_len")
+            run.assume(n2 >= 0)
+            for f in FIELDS:
+                if p[f] == "list":
+                    g = z3.Function("el2_" + f, z3.IntSort(), z3.RealSort())
+                    setattr(me, f, values.SList(n2, lambda i, g=g: Num(g(i.z()), True), name=f))
+            if p["timestamps"] == "list":
+                me.timestamps = None
+            me.validate()
+            run.oblige("steps-follow-reassigned-fields", sym.num(me.n_timesteps) == n2, kind="post")
+        ctx.explore("config_parser.MetConfig.n_timesteps[%s|history]" % cfg, t_hist, PROPS)
+
         # ---------------- get_step: postcondition, index preconditions
         def t_step(run, p=p, cfg=cfg, rp=rp):
             me = make_met(run, ns, p)
